@@ -332,7 +332,14 @@ def mutate_path(rng, d, L, mut):
 
 
 def run_v1(ctx: C.Ctx):
-    run_v1_alias(ctx)
+    import time
+    full = ctx.deadline
+    if full is not None:
+        ctx.deadline = time.time() + max(0.0, full - time.time()) * 0.5
+    try:
+        run_v1_alias(ctx)
+    finally:
+        ctx.deadline = full
     run_v1_features(ctx)
     ctx.rule = ctx.rule_alias + ' ALSO ' + ctx.rule
 
